@@ -148,9 +148,13 @@ def run(prog):
                 if cs.callee.name != "push" or "Vec" not in cs.callee.key() or "var_to_val" not in show(cs.args[0]):
                     continue
                 found = True
-                if not show(strip(cs.args[1])).startswith("None"):
-                    errs.append("the table is padded with %s, not with None: variables that were never given a weight appear to have one"
-                                % show(cs.args[1])[:30])
+                pv = strip(cs.args[1])
+                if pv[0] == "agg" and pv[3] == "Some" and pv[4] and strip(pv[4][0])[0] == "agg" and \
+                        [strip(x) for x in strip(pv[4][0])[4]] == [("param", 3), ("param", 4)]:
+                    continue        # the entry itself, appended at the end of a table padded up to its index
+                if not show(pv).startswith("None"):
+                    errs.append("?the table is extended with %s" % show(cs.args[1])[:30])
+                    continue
                 okf = False
                 for c, val, _, _ in te.facts_at(cs.bb):
                     c = strip(c)
